@@ -195,6 +195,7 @@ type c13EP struct {
 	body    []byte // complete text of the current remote version
 	over    []byte // oversized variant of it
 	log     []c13Req
+	cancel  func() // cancels the context of the refresh that is downloading this list
 }
 
 // record notes the outcome of the request that begin registered.
@@ -280,6 +281,27 @@ func (ep *c13EP) ServeHTTP(w http.ResponseWriter, r *http.Request) {
 		}
 		_ = conn.Close()
 		ep.record(path, fmt.Sprintf("trunc:%d/%d", cut, len(body)))
+	case "cancel":
+		// the refresh as a whole is cancelled while this list is in transfer
+		if variant%2 == 1 {
+			w.Header().Set("Content-Length", fmt.Sprint(len(body)))
+			_, _ = w.Write(body[:len(body)/2])
+			w.(http.Flusher).Flush()
+		}
+		ep.mu.Lock()
+		cancel := ep.cancel
+		ep.mu.Unlock()
+		if cancel == nil {
+			ep.record(path, "cancel:no-context")
+			return
+		}
+		cancel()
+		select {
+		case <-r.Context().Done():
+			ep.record(path, "cancel:gone")
+		case <-time.After(8 * time.Second):
+			ep.record(path, "cancel:guard")
+		}
 	case "timeout":
 		if variant%2 == 1 {
 			// headers and half of the text, then silence
@@ -512,11 +534,22 @@ func c13Start(dir string, urls func(list string) *url.URL, timeout time.Duration
 }
 
 // round runs one refresh of the storage and one of the hash-prefix filter.
-func (p *c13Proc) round() (serr, herr error) {
-	ctx, cancel := context.WithTimeout(context.Background(), 60*time.Second)
-	defer cancel()
-	serr = c13NoPanic(func() error { return p.s.Refresh(ctx) })
-	herr = c13NoPanic(func() error { return p.hp.Refresh(ctx) })
+func (p *c13Proc) round(nw *c13Net) (serr, herr error) {
+	sctx, scancel := context.WithTimeout(context.Background(), 60*time.Second)
+	defer scancel()
+	hctx, hcancel := context.WithTimeout(context.Background(), 60*time.Second)
+	defer hcancel()
+	for l, ep := range nw.eps {
+		ep.mu.Lock()
+		if l == "hp" {
+			ep.cancel = hcancel
+		} else {
+			ep.cancel = scancel
+		}
+		ep.mu.Unlock()
+	}
+	serr = c13NoPanic(func() error { return p.s.Refresh(sctx) })
+	herr = c13NoPanic(func() error { return p.hp.Refresh(hctx) })
 	return serr, herr
 }
 
@@ -659,16 +692,16 @@ type c13Beh struct {
 	Steps  []c13Step `json:"steps"`
 }
 
-var c13AllFaults = []string{"ok", "refused", "timeout", "status", "empty", "oversize", "trunc", "inv", "invown"}
+var c13AllFaults = []string{"ok", "refused", "timeout", "status", "empty", "oversize", "trunc", "cancel", "inv", "invown"}
 
 func c13FaultsOf(l string) []string {
 	switch l {
 	case "ridx":
 		return c13AllFaults
 	case "sidx":
-		return c13AllFaults[:8]
+		return c13AllFaults[:9]
 	default:
-		return c13AllFaults[:7]
+		return c13AllFaults[:8]
 	}
 }
 
@@ -795,7 +828,7 @@ func c13RunBeh(t *testing.T, out *vhOut, nw *c13Net, rng *rand.Rand, id int, b c
 				remote[l] = v
 			}
 			t0 := time.Now()
-			serr, herr := p.round()
+			serr, herr := p.round(nw)
 			errs := p.errs.take()
 			real, reached, staleIV := c13Realised(nw, errs)
 			out.Emit(map[string]any{"ev": "Round", "beh": id, "faults": st.Faults, "remote": remote,
